@@ -1,4 +1,4 @@
-//@ unit u2_verdicts props C01 C02 C08 C12
+//@ unit u2_verdicts props C01 C02 C08 C12 also C06
 // Unit U2: the verdict functions of src/database/authorisation_service.rs.
 // The room decision kernel (unit u1_room) is visible here only through the contracts proved there.
 #![feature(allocator_api)]
@@ -126,6 +126,11 @@ use system_entities::*;
 //@ use-contract u1_room.rs :: Room::can
 //@ use-contract u1_room.rs :: Room::is_admin
 //@ use-contract u1_room.rs :: Room::is_user_valid_at
+//@ use-contract u1_room.rs :: Room::has_user
+//@ use-contract u1_room.rs :: Authorisation::can_admin_users
+//@ use-contract u1_room.rs :: Authorisation::is_user_valid_at
+//@ use-contract u1_room.rs :: Authorisation::can
+//@ use-contract u1_room.rs :: Authorisation::has_user
 
 // ================================================================= spec of the verdicts (from the property statements)
 /// the right a change needs: own-rows right for rows the author creates or authored, all-rows right otherwise
@@ -243,6 +248,7 @@ pub closed spec fn logs_in_room(e: InsertEntity, old_len: int) -> bool {
     e.node_to_mutate.room_id is Some ==> forall|i: int| old_len <= i < e.edge_deletions_log@.len() ==> (#[trigger] e.edge_deletions_log@[i]).room_id == e.node_to_mutate.room_id->Some_0
 }
 
+//@ use-contract u4_digests.rs :: Node::sign only sign_sets_author,sign_frame
 //@ use-contract u4_digests.rs :: EdgeDeletionEntry::build only del_build_fields
 //@ use-contract u4_digests.rs :: NodeDeletionEntry::build only del_build_fields
 
@@ -363,7 +369,17 @@ pub closed spec fn deletion_ok(ra: RoomAuthorisations, old_q: DeletionQuery, new
             assert(<Vec<u8> as PartialEqSpec<Vec<u8>>>::obeys_eq_spec());
             assert(<[u8; 16] as PartialEqSpec<[u8; 16]>>::obeys_eq_spec());
         }
-//@ cut "for node in &mut deletion_query.updated_nodes" => "cut_sign_updated_nodes(&mut deletion_query.updated_nodes, &self.signing_key)?;"
+//@ rewrite E17 "(?<=for node in )&mut deletion_query\.updated_nodes(?= \{)" => "deletion_query.updated_nodes.iter_mut()" x1
+//@ loop "for node in &mut deletion_query.updated_nodes" iter itu
+            invariant
+                deletion_query.nodes == old(deletion_query).nodes, deletion_query.edges == old(deletion_query).edges,
+                deletion_query.edge_log == old(deletion_query).edge_log,
+                verifying_key@ == self.signing_key.spec_vk(),
+                forall|i: int| 0 <= i < old(deletion_query).nodes@.len() ==> node_delete_ok(*self, #[trigger] old(deletion_query).nodes@[i], now),
+                forall|k: int| old(deletion_query).node_log@.len() <= k < deletion_query.node_log@.len() ==> node_log_ok(*self, #[trigger] deletion_query.node_log@[k], now),
+                deletion_query.node_log@.len() >= old(deletion_query).node_log@.len(),
+                // [rewritten_rows_resigned_by_caller]{C06,C01} every source row re-dated by a reference removal is re-signed: its stated author becomes the caller
+                forall|i: int| 0 <= i < itu.index@ ==> final(#[trigger] itu.seq()[i]).verifying_key@ == self.signing_key.spec_vk(),
 //@ insert before-stmt "deletion_query.node_log.push(log_entry)"
                                 // [node_record_for_checked_row]{C01,C12} the signed record names the row that was just checked, in the room whose rights were consulted
                                 assert(log_entry.room_id == node.node.room_id->Some_0 && log_entry.id == node.node.id && log_entry.mdate == node.node.mdate && log_entry.entity@ == node.node._entity@);
@@ -392,6 +408,8 @@ pub closed spec fn deletion_ok(ra: RoomAuthorisations, old_q: DeletionQuery, new
         ensures
             // [deletion_needs_right]{C01,C12} Ok only if no system entity is named and, for some validation date t, every row and reference of a room may be deleted by the caller (own rows: own-rows right at the preparation date; foreign rows: all-rows right at t) and every record produced is signed by the caller and dated t
             r is Ok ==> exists|t: i64| deletion_ok(*self, *old(deletion_query), *final(deletion_query), t),
+            // [rewritten_rows_resigned]{C06,C01} every row rewritten by the deletion carries the caller as its stated author (it is re-signed by the caller)
+            r is Ok ==> forall|i: int| 0 <= i < final(deletion_query).updated_nodes@.len() ==> (#[trigger] final(deletion_query).updated_nodes@[i]).verifying_key@ == self.signing_key.spec_vk(),
             // [deletion_frame] the rows named for deletion are not altered by validation
             final(deletion_query).nodes == old(deletion_query).nodes && final(deletion_query).edges == old(deletion_query).edges,
 //@ end
